@@ -1,5 +1,58 @@
+/-
+C35 — property theorems (statements only depend on Model.lean; helper lemmas in Lemmas.lean).
+
+Property: row/column slicing, row/column replacement, zeroing, stacking, block construction,
+run-length encoding/decoding, index-pointer expansion, block-diagonal index generation and
+Kronecker expansion return exactly what the equivalent dense operations return.
+
+Every theorem has the shape  `toDense (f A …) = denseRef (toDense A) …`  (or, for the index helpers,
+`f … = spec …` with `spec` the obvious structural recursion), for ALL well-formed inputs.
+-/
 import PorepyVerif.C35.Lemmas
 
 namespace PorepyVerif.C35
+
+/-! ## index-pointer expansion -/
+
+/-- `expand_index_pointers(lo, hi)` is the concatenation of the ranges `[lo_k, hi_k)` — the loop in
+    the docstring — for all integer arrays of equal length (empty and negative-length intervals,
+    negative bounds included). -/
+theorem expand_index_pointers_eq_ranges (lo hi : List Int) (h : lo.length = hi.length) :
+    expandIndexPointers lo hi = .ok (expandSpec lo hi) := by
+  have hb : broadcastLoHi lo hi = (lo, hi) := broadcastLoHi_same_length lo hi h
+  simp only [expandIndexPointers, hb, h, ne_eq, not_true_eq_false, if_false, expandCore_eq_spec]
+
+/-- … and with numpy broadcasting of a single bound; unequal lengths are the `ValueError`. -/
+theorem expand_index_pointers_broadcast (lo hi : List Int) :
+    expandIndexPointers lo hi =
+      if (broadcastLoHi lo hi).1.length = (broadcastLoHi lo hi).2.length
+      then .ok (expandSpec (broadcastLoHi lo hi).1 (broadcastLoHi lo hi).2) else .error "ValueError" := by
+  simp only [expandIndexPointers, expandCore_eq_spec]
+  split <;> simp_all
+
+example : expandIndexPointers [0, 0, 0] [2, 4, 3] = .ok [0, 1, 0, 1, 2, 3, 0, 1, 2] := by decide +kernel
+example : expandIndexPointers [3, -3, 5, 5] [2, -1, 7, 5] = .ok [-3, -2, 5, 6] := by decide +kernel
+
+/-! ## run-length decoding / encoding -/
+
+/-- `rldecode(A, n)` = `np.repeat(A, n)` (counts ≤ 0 contribute nothing), for every value list and
+    every count list that is not longer than the values. -/
+theorem rldecode_eq_repeat {α} [Inhabited α] (a : List α) (n : List Int) (h : n.length ≤ a.length) :
+    rldecode a n = .ok (rldecodeSpec a n) := by
+  have hidx := rldecode_idx n
+  simp only at hidx
+  have hall : (repeatSpec (whereTrue (n.map (fun c => decide (0 < c)))) (posCounts n)).any
+      (fun k => decide (a.length ≤ k)) = false := by
+    rw [List.any_eq_false]
+    intro k hk
+    have hm := mem_repeatSpec _ _ k hk
+    have := trueIdxFrom_bounds 0 _ k hm
+    simp only [List.length_map] at this
+    simp only [decide_eq_true_eq]; omega
+  simp only [rldecode, hidx, hall, gather_repeatSpec, Bool.false_eq_true, if_false]
+  simp only [whereTrue]
+  rw [repeatSpec_pos_eq_spec a n a 0 rfl h]
+
+example : rldecode [1, 2, 3] [2, 0, 1] = .ok [1, 1, 3] := by decide +kernel
 
 end PorepyVerif.C35
